@@ -8,6 +8,7 @@ import Clover.Proofs.RefineFaults
 import Clover.Proofs.SpecWF
 import Clover.Proofs.RefineAnyPlan
 import Clover.Proofs.RefineAnyPlanFaults
+import Clover.Proofs.Witness
 /-! # C01 — queries return exactly the documents that satisfy their criteria -/
 namespace CV.Props.C01
 open CV
@@ -156,6 +157,22 @@ theorem states_refine_any_plan_under_faults (h : List (Op × Faults)) (hok : ∀
       Rep (lockstep likeFn fnFam h {} []).2.2 (lockstep likeFn fnFam h {} []).2.1.kv ∧
       WF (lockstep likeFn fnFam h {} []).2.2 :=
   refine_states_any_plan_from_empty_faults likeFn fnFam h hok hdom
+
+/-- **The any-plan theorems are not vacuous** (`Proofs/Witness.lean`): a concrete history — create a collection,
+    index `x`, insert three documents, `Update` where `x ≥ 2`, copy the documents with `x ≥ 7` into a second
+    collection, index it, `Delete` from it — satisfies every hypothesis, and its update, copy and delete are in
+    the domain ONLY through the index-plan disjunct (none of them is a full scan); the sorted, windowed read at
+    the end has its sort served by the index and cuts a real tie class. -/
+theorem any_plan_theorems_apply_to_a_real_history :
+    (∀ op ∈ Witness.ops, OpOK op) ∧ AllInDomain Witness.likeFn Witness.fnFam Witness.ops [] ∧
+    ¬ FullPlan Witness.s3 Witness.q₁ ∧ ¬ FullPlan Witness.s6 Witness.qDel ∧
+    (choosePlan Witness.coll.indexes Witness.q₂).2 = true ∧
+    Rep Witness.sFinal (modelRun Witness.likeFn Witness.fnFam Witness.ops {}).2.kv ∧
+    (∃ r, (withTx false (Op.body Witness.likeFn Witness.fnFam (.findAll Witness.q₂)) noFault
+        (modelRun Witness.likeFn Witness.fnFam Witness.ops {}).2.kv).1 = .ok (.docs [r]) ∧
+      compareDocuments r Witness.d2' [(Witness.x, 1)] = 0) :=
+  ⟨Witness.ops_ok, Witness.ops_inDomain, Witness.update_not_fullPlan, Witness.delete_not_fullPlan,
+    Witness.plan₂_sorted, Witness.witness_states.1, Witness.witness_findAll_one⟩
 
 /-- the domain of `states_refine_any_plan` contains every history of `refine_history` -/
 theorem determined_histories_are_in_domain (ops : List Op) (s : Spec.State) (h : AllDetermined likeFn fnFam ops s) :
